@@ -258,7 +258,7 @@ func checkValid(c validCase) harness.Outcome {
 var parseValid = harness.Register(&harness.Facet[validCase]{
 	Name: "parse-valid",
 	Rule: "rapid: JSON value tree (depth ≤ 4, ≤ 30 nodes; numbers from the boundary pool / integers / decimals / random bit patterns / overflowing literals; strings over controls, quote, backslash, U+007F, U+2028/9, BMP, astral, lone surrogates; empty and duplicate keys; nested empties) rendered by one of three independent renderers (canonical, random white space + every escape and number spelling, all-escaped); expected value = the model reader's (15.12.1/15.12.2), compared from Go by number bits, string code units, key sets; non-trivial = the tree has a container and a string needing escapes or a non-integer number; distinct by text",
-	Quick: 12000, Thorough: 150000,
+	Quick: 12000, Thorough: 100000,
 	Gen: func(t *rapid.T) validCase {
 		tree := m11.GenTree(t, m11.TreeOpts{MaxDepth: 4, MaxNodes: 30, Lone: true, Overflow: true})
 		style := m11.Style(rapid.IntRange(0, 2).Draw(t, "style"))
@@ -307,7 +307,7 @@ func checkMutated(c mutCase) harness.Outcome {
 var parseMutated = harness.Register(&harness.Facet[mutCase]{
 	Name: "parse-mutated",
 	Rule: "rapid: a valid rendering (as in parse-valid, depth ≤ 3) with ONE edit out of 30 kinds (trailing/leading/double comma, leading zero, +1, .5, 1., single quotes, raw control character, NaN/Infinity, hex, comments, bare words, truncation, U+00A0/U+FEFF/U+000B/U+2028… as white space, unescaped quote, bad escapes, case of literals, unquoted key, broken exponent, second value, deleted/inserted/replaced code unit …); the model's recogniser — not the intent of the edit — decides: still a JSONText ⇒ value compared as in parse-valid, otherwise SyntaxError required; non-trivial = the edit lands inside a string/number/literal token; distinct by text",
-	Quick: 25000, Thorough: 250000,
+	Quick: 25000, Thorough: 200000,
 	Gen: func(t *rapid.T) mutCase {
 		tree := m11.GenTree(t, m11.TreeOpts{MaxDepth: 3, MaxNodes: 16, Lone: false, Overflow: false})
 		text := m11.Render(t, tree, m11.Style(rapid.IntRange(0, 2).Draw(t, "style")))
